@@ -41,6 +41,14 @@ fn fresh_id() -> u32 {
         v
     })
 }
+/// Append to the destructor log from a harness-defined payload type.
+pub fn log_drop(tag: u8, id: u32) {
+    suspend(|| DROPS.with(|d| d.borrow_mut().push((tag, id))));
+}
+/// Fresh identity for harness-defined payload types.
+pub fn new_id() -> u32 {
+    fresh_id()
+}
 pub fn n_drops() -> usize {
     DROPS.with(|d| d.borrow().len())
 }
